@@ -304,7 +304,7 @@ def run(res, a):
         lens = ",".join("%d/%d" % (rng.choice([60, 64, 65, 80, 200, 1000, 4095, 4096, 5000]), rng.choice([0, 0, 1, 40, 300, 1500, 4096, 9000])) for _ in range(rng.randrange(1, 6)))
         segs = ",".join(str(rng.choice([1, 2, 3, 7, 64, 100, 1024, 1448, 4096, 100000])) for _ in range(rng.randrange(1, 6)))
         bufs = ",".join(str(rng.choice([1, 1, 2, 16, 100, 512, 4096, 8192])) for _ in range(rng.randrange(1, 5)))
-        pf.append({"id": "pf%d" % i, "kind": "plain-framing", "line": "pf %s %s %s %s" % (lens, segs, bufs, rng.choice(["crlf", "crlf", "lf", "mix"]))})
+        pf.append({"id": "pf%d" % i, "kind": "plain-framing", "line": "pf %s %s %s %s" % (lens, segs, bufs, rng.choice(["crlf", "lf", "mix", "rnd%d" % rng.randrange(1000), "rnd%d" % rng.randrange(1000), "rnd%d" % rng.randrange(1000)]))})
     pobs = core.shard_run(os.path.join(core.BUILD, "hcdrv"), "conn", ["%s %s" % (c["id"], c["line"]) for c in pf])
     pbad = 0
     for c in pf:
